@@ -1856,3 +1856,12 @@ pub mod pkgtrace {
 		TRACE.with(|t| t.borrow_mut().drain(..).collect())
 	}
 }
+
+/// The monitor's "channel is closed" flags and the predicate over them (C05):
+/// `[funding_spend_seen, lockdown_from_offchain, holder_tx_signed, is_manual_broadcast,
+/// funding_seen_onchain, no_further_updates_allowed()]`. Read-only.
+pub fn monitor_close_flags<Signer: crate::sign::ecdsa::EcdsaChannelSigner>(
+	monitor: &crate::chain::channelmonitor::ChannelMonitor<Signer>,
+) -> [bool; 6] {
+	monitor.verif_close_flags()
+}
